@@ -3,9 +3,10 @@
    implementation.
 
    Instantiation of the model's section variables:
-     crc        = the extracted Coq [Crc32c.crc32c] for inputs up to 4096 bytes, the table-driven
-                  [Hash.crc32c] (ocaml/common/hash.ml) above that (megabyte frames of the size-limit
-                  cases); the two are cross-checked at start-up on a 5000-byte input
+     crc        = the extracted Coq [Crc32c.crc32c] for inputs up to 512 bytes, the table-driven
+                  [Hash.crc32c] (ocaml/common/hash.ml) above that (block parts, megabyte frames of the
+                  size-limit cases); the two are cross-checked at start-up on a 5000-byte input and on
+                  every payload of a case's table up to 8192 bytes
      deser/ser/end_height = the per-case payload table (lines "P ...") the harness obtained from the
                   real proto.Unmarshal+WALFromProto / WALToProto+proto.Marshal; a payload that passes
                   the CRC check but is not in the table decodes to the digest UNKNOWN (=> mismatch)
@@ -38,7 +39,7 @@ let rec nat_len acc = function O -> acc | S x -> nat_len (acc + 1) x
 let rec list_len acc = function [] -> acc | _ :: t -> list_len (acc + 1) t
 
 let crc (bs : n list) : n =
-  if longer_than 4096 bs then n_of_int (Hash.crc32c (str_of_nlist bs)) else crc32c bs
+  if longer_than 512 bs then n_of_int (Hash.crc32c (str_of_nlist bs)) else crc32c bs
 
 let () =
   let s = String.init 5000 (fun i -> Char.chr ((i * 7 + i / 13 + 5) land 255)) in
@@ -142,6 +143,8 @@ let () =
        | ["P"; p; "ERR"; _; _] -> Hashtbl.replace tbl (bytes_of_tok p) None
        | ["P"; p; dg; rs; eh] ->
          let ps = bytes_of_tok p in
+         if String.length ps > 512 && String.length ps <= 8192
+            && int_of_n (crc32c (nlist_of_str ps)) <> Hash.crc32c ps then failwith "extracted crc32c <> Hash.crc32c";
          let rs = if rs = "=" then ps else bytes_of_tok rs in
          Hashtbl.replace tbl ps (Some { dg; rs = nlist_of_str rs; eh = (if eh = "-" then None else Some (z_of_string eh)) })
        | [("W" | "S" | "E") as o; p] ->
